@@ -1175,7 +1175,12 @@ def _identity(tree) -> dict:
     if len(props) != 1:
         fail(None, "the `array` property of Charge was not found exactly once")
     al = _Alias(props[0])
-    cs = {al.cls(r.value) for r in returns(props[0])}
+    # a local name that is ALSO bound to self._array in the property (`new = self.convert_df_to_array();
+    # self._array = new; return new`) is the stored object
+    now_stored = {n.value.id for n in ast.walk(props[0]) if isinstance(n, ast.Assign) and isinstance(n.value, ast.Name)
+                  and any(_self_attr(t, ("_array",)) for t in n.targets)}
+    cs = {STORED if isinstance(r.value, ast.Name) and r.value.id in now_stored and al.cls(r.value) == FRESH
+          else al.cls(r.value) for r in returns(props[0])}
     if cs == {STORED}:
         res["array_exposes"] = True
     elif cs == {FRESH}:
